@@ -130,6 +130,12 @@ def gen_cases(rng: Rng, tier):
     n_cases = dict(quick=52, thorough=800)[tier]
     mk_kinds = ["random", "random", "heavy", "ends", "onefull", "none", "none"]
     for k in range(n_cases):
+        if k % 32 in (7, 9):
+            # COMPLETE irregular data around and above the approximation switch (2000 pooled samples), generic abscissae
+            # (linspace: not round numbers), every point shared by all curves (ties): both encodings AND the dense twin
+            n_, m_ = rng.choice([(8, 250), (8, 251)] if k % 32 == 7 else [(8, 313), (8, 625), (5, 401)])
+            yield dict(kind="big", seed=rng.subseed(), n=n_, m=m_, keep="1", bw=rs(rng.choice([Fraction(1, 16), Fraction(1, 8)])), sub="complete")
+            continue
         if k % 32 == 5:
             # a large grid: the size-dependent branches (binned mean above 2000 samples) must not depend on the encoding
             sub = rng.choice(["straddle", "straddle", "above", "below"])
@@ -576,9 +582,18 @@ def _run_big(case):
     for j in range(m):
         if not M[:, j].any():
             M[g.integers(n), j] = True
-    A, B, _ = _build(t, V, M.astype(int).tolist())
+    if case["sub"] == "complete":
+        M[:] = True
+    A, B, D = _build(t, V, M.astype(int).tolist())
     bw = float(F(case["bw"]))
     out = dict(slots=int(n * m), observed=int(M.sum()))
+    if D is not None:
+        od = {}
+        _try(od, "mean_lp", lambda: _vals(D.mean(method_smoothing="LP", bandwidth=bw)))
+        _try(od, "center_lp", lambda: _dense_content(D.center(method_smoothing="LP", bandwidth=bw)))
+        _try(od, "noise", lambda: float(D.noise_variance()))
+        _try(od, "to_long", lambda: _long(D))
+        out["dense"] = od
     out["t"] = [rs(Fraction(float(x))) for x in t]
     out["V"] = [[rs(Fraction(float(x))) for x in r] for r in V]
     out["M"] = M.astype(int).tolist()
@@ -619,6 +634,8 @@ def _exactv(v):
 
 def model_lines(case, impl):
     if case["kind"] == "big" and "__crash__" not in impl:
+        if impl.get("slots", 0) > 2700:
+            return []  # the exact model of the binning is run on the moderate sizes only
         g = ",".join(impl["t"])
         return [f"pool {g} {_M(impl['V'])} {_M(impl['M'])} 1", f"pool {g} {_M(impl['V'])} {_M(impl['M'])} 0"]
     if case["kind"] != "enc" or "__crash__" in impl:
@@ -1076,6 +1093,23 @@ def _oracle_sparsify(case, impl):
 
 def _oracle_big(case, impl):
     vs_ = []
+    if "dense" in impl:
+        for key in ("mean_lp", "mean_lp_exact", "center_lp", "noise", "to_long"):
+            d_ = impl["dense"].get("mean_lp" if key == "mean_lp_exact" else key)
+            for e in ("nan", "rag"):
+                a_ = impl[e].get(key)
+                entry = "IrregularFunctionalData." + ENTRY.get(key, "mean" if key.startswith("mean") else key)
+                if isinstance(a_, str) or isinstance(d_, str) or a_ is None or d_ is None:
+                    if isinstance(a_, str) != isinstance(d_, str):
+                        vs_.append(dict(clause="complete_equals_dense", entry=entry, msg=f"large complete data, {key}: {str(a_)[:50]} vs dense {str(d_)[:50]}"))
+                    continue
+                fa, fd_ = _flat(key, a_), _flat(key, d_)
+                if fa.shape != fd_.shape or not np.all(np.abs(fa - fd_) <= 1e-8 * max(1.0, float(np.abs(fd_).max()))):
+                    dd = float(np.abs(fa - fd_).max()) if fa.shape == fd_.shape else float("nan")
+                    vs_.append(dict(clause="complete_equals_dense", entry=entry,
+                                    msg=f"complete data, {impl['observed']} pooled samples on generic abscissae, {key} ({e} encoding) differs from the dense twin "
+                                        f"with the same settings: max |Δ| = {dd:.3g}"))
+                    break
     for key in ("mean_lp", "mean_lp_exact", "center_lp", "noise", "to_long"):
         a, b = impl["nan"][key], impl["rag"][key]
         entry = "IrregularFunctionalData." + ENTRY.get(key, "mean" if key.startswith("mean") else key)
